@@ -6,7 +6,7 @@
 From Coq Require Import ZArith PArith List Bool Ascii Permutation.
 Import ListNotations.
 From PV Require Import Marker.SendRestr Marker.SendRestrSpec Marker.SendCompose
-  Proofs.SendRestrProofs Proofs.SendRestrPerm Proofs.SendComposeProofs.
+  Proofs.SendRestrProofs Proofs.SendRestrPerm Proofs.SendComposeProofs Proofs.ReqAttrProofs.
 From PV Require Corr.C04 Proofs.C04CheckerProofs.
 
 (** "Permitted exactly when the documented rules permit it": for every configuration, sender,
@@ -126,6 +126,46 @@ Theorem C04_own_denom_check_subsumed : forall c from to amt,
   forallb (fun p => validate_send_denom c from to (cfg_agents c) (fst p) (get_marker_ign c to)) amt.
 Proof. exact own_denom_check_subsumed. Qed.
 Print Assumptions C04_own_denom_check_subsumed.
+
+(** Required attributes are judged one by one, also when they OVERLAP (a wildcard and an exact name
+    under it, nested wildcards, duplicates): nothing is reported missing iff every requirement has SOME
+    attribute matching it; the verdict on a list is that of its parts and depends only on the set of
+    requirements; one attribute that matches all requirements satisfies them all; more attributes never
+    hurt; and this is the documented level-wise rule applied per requirement. *)
+Theorem C04_required_attributes_are_independent : forall required attrs,
+  (find_missing_attributes required attrs = [] <->
+   forall r, In r required -> exists a, In a attrs /\ match_attribute r a = true) /\
+  (forall r1 r2, find_missing_attributes (r1 ++ r2) attrs =
+                 find_missing_attributes r1 attrs ++ find_missing_attributes r2 attrs) /\
+  (forall required', (forall r, In r required <-> In r required') ->
+     (find_missing_attributes required attrs = [] <-> find_missing_attributes required' attrs = [])) /\
+  (forall a, In a attrs -> (forall r, In r required -> match_attribute r a = true) ->
+     find_missing_attributes required attrs = []) /\
+  (forall attrs', (forall a, In a attrs -> In a attrs') ->
+     find_missing_attributes required attrs = [] -> find_missing_attributes required attrs' = []) /\
+  match find_missing_attributes required attrs with [] => true | _ => false end =
+  each_requirement_matched required attrs.
+Proof. exact required_attributes_independent. Qed.
+Print Assumptions C04_required_attributes_are_independent.
+
+(** Where the attributes decide (ordinary sender without transfer permission and not deny-listed, no
+    agent with transfer permission, ordinary receiver, active restricted marker with required
+    attributes) the verdict on a one-coin send IS that rule on the marker's requirements and the
+    receiver's attribute names. *)
+Theorem C04_attribute_decided_verdict : forall c from to d a m,
+  (0 < a)%Z -> attribute_decided c from to d = true -> marker_for_denom c d = Some m ->
+  allowed c from to [(d, a)] = each_requirement_matched (m_req_attrs m) (attributes_of c to).
+Proof. exact attribute_decided_verdict. Qed.
+Print Assumptions C04_attribute_decided_verdict.
+
+(** A one-pass rewrite that lets each attribute tick off only the FIRST unsatisfied requirement it
+    matches is a different rule: "*.investor.pb" + "accredited.investor.pb" against the single name
+    "accredited.investor.pb".  Witness by computation. *)
+Theorem C04_one_pass_tick_off_refuted :
+  exists required attrs,
+    find_missing_attributes required attrs = [] /\ one_pass_missing required attrs <> [].
+Proof. exact one_pass_refuted. Qed.
+Print Assumptions C04_one_pass_tick_off_refuted.
 
 (** * The three restrictions of the application together *)
 
